@@ -1057,3 +1057,28 @@ func BlocksReachableFrom(b *ssa.BasicBlock) map[*ssa.BasicBlock]bool {
 	}
 	return seen
 }
+
+// ControlConds returns, for a phi that merges a short-circuit / if-else
+// diamond, the branch conditions inside that diamond (the blocks dominated by
+// the phi block's immediate dominator that are not dominated by the phi block
+// itself). For other values it returns nil.
+func ControlConds(v ssa.Value) []ssa.Value {
+	phi, ok := v.(*ssa.Phi)
+	if !ok {
+		return nil
+	}
+	d := phi.Block().Idom()
+	if d == nil {
+		return nil
+	}
+	var out []ssa.Value
+	for _, b := range phi.Parent().Blocks {
+		if !d.Dominates(b) || phi.Block().Dominates(b) {
+			continue
+		}
+		if ifi, ok := b.Instrs[len(b.Instrs)-1].(*ssa.If); ok {
+			out = append(out, ifi.Cond)
+		}
+	}
+	return out
+}
